@@ -16,6 +16,10 @@ from checks.trielib import mqtt_match
 FILTERS = ["a", "a/b", "a/#", "+/b", "#", "+", "a/+", "b/#", "a//b", "+/+", "/a", "a/b/c", "w/#"]
 TOPICS = ["a", "a/b", "b", "b/b", "a/b/c", "a//b", "/a", "a/", "w/t"]
 MOUNTS = ["mp", "mq", "mr"]
+# tenants whose names are prefixes of one another, with client identifiers chosen so that mount point + client identifier
+# of different tenants spell the same string (t1 + 1cK = t11 + cK = t + 11cK)
+PREFIX_MOUNTS = ["t1", "t11", "t"]
+PREFIX_CID = {"t1": "1c", "t11": "c", "t": "11c"}
 
 
 def parse_out(line):
@@ -37,14 +41,15 @@ def pubstr(topic, payload, qos, retain, dup):
 
 
 class Scenario:
-    def __init__(self, rng, nnodes, mounts=1, settle=None, real_log=False):
+    def __init__(self, rng, nnodes, mounts=1, settle=None, real_log=False, prefix_names=False):
         self.rng = rng
         self.nn = nnodes
         self.ops = [f"reset {nnodes}" + (" real" if real_log else "")]
         self.exp = {}        # op index -> (dict client -> sorted list of stripped packets, rule)
         self.clients = {}    # name -> dict
         self.retained = {}   # (mount, topic) -> (payload, qos, dup)
-        self.mounts = MOUNTS[:mounts]
+        self.mounts = (PREFIX_MOUNTS if prefix_names else MOUNTS)[:mounts]
+        self.prefix_names = prefix_names
         self.k = 0
         self.mid = 10
         self.dirty = False   # gossip pending
@@ -101,13 +106,19 @@ class Scenario:
         name = name or f"c{self.k}"
         node = self.rng.randrange(self.nn) if node is None else node
         mount = mount or self.rng.choice(self.mounts)
+        if not cid and self.prefix_names:
+            cand = PREFIX_CID[mount] + str(self.k // 2)
+            if not any(v["mount"] == mount and v["cid"] == cand for v in self.clients.values()):
+                cid = cand
         cid = cid or f"id{self.k}"
         spec = "-"
         if will:
             spec = f"{will[0]}:{will[1]}:{will[2]}:{will[3]}"
         self.clients[name] = {"node": node, "mount": mount, "cid": cid, "will": will, "subs": {}, "alive": True, "ka": keepalive,
                               "seq": self.k}
-        self.emit(f"connect {name} {node} {cid} {mount} {keepalive} {spec}", {name: ["connack(0)"]}, "connect")
+        if cid == "~":
+            cid = self.clients[name]["cid"] = "0x"      # the empty client identifier: `~` in ops, shown as 0x
+        self.emit(f"connect {name} {node} {'~' if cid == '0x' else cid} {mount} {keepalive} {spec}", {name: ["connack(0)"]}, "connect")
         self.gossip()
         return name
 
@@ -264,6 +275,12 @@ def monitor_for(scenarios_exp):
             elif i not in scenarios_exp and line.startswith("RUNAWAY"):
                 out.append((i, "broker-never-quiet", f"`{ops[i]}`: {line}"))
                 break
+        for i, line in enumerate(impl):
+            # MQTT packet identifiers are 1..65535: a pool with more free identifiers than that hands out one that does
+            # not fit the wire format (it would be truncated to another delivery's identifier)
+            m = re.match(r"free=(\d+)", line) if ops[i].startswith("pool ") else None
+            if m and int(m.group(1)) > 65535:
+                out.append((i, "identifier-outside-16-bits", f"`{ops[i]}` = {line}: the writer's pool holds {m.group(1)} free identifiers; only 1..65535 exist on the wire"))
         for i, (exp, rule) in scenarios_exp.items():
             line = impl[i]
             if line.startswith("panic") or line == "<no-output>":
@@ -293,7 +310,7 @@ def monitor_for(scenarios_exp):
 
 def gen_converged(rng, nn, mounts, nops, weights=None, retain_p=0.3, clear_p=0.3):
     """a random converged scenario; returns Scenario"""
-    sc = Scenario(rng, nn, mounts)
+    sc = Scenario(rng, nn, mounts, prefix_names=(mounts > 1 and rng.random() < 0.4))
     w = {"connect": 2, "sub": 4, "unsub": 1, "pub": 6, "end": 1, "state": 0.5}
     if weights:
         w.update(weights)
@@ -349,7 +366,7 @@ def run_scenarios(c, name, scenarios, samples, extra_stats=None):
 def add_c01_suites(c, samples):
     rng = c.rng
     n = 12 if c.tier == "quick" else 150
-    scs = corpus(rng, ["broken-recipient"])
+    scs = corpus(rng, ["broken-recipient", "alternating-hosts"])
     scs += [gen_converged(rng, rng.choice([1, 1, 2]), 1, rng.choice([12, 20]), {"pub": 8, "sub": 5, "unsub": 2}) for _ in range(n)]
     run_scenarios(c, "broker-publish-routing", scs, samples)
 
@@ -513,7 +530,7 @@ def gen_faults(rng, nn):
 def gen_lifecycle(rng, nn, mounts=1, takeover=0.25, fine_gossip=False):
     """connect / subscribe / publish / ping / disconnect / drop / take-over, with gossip either fully delivered after
     every change (oracle applies) or delivered link by link in random order (model comparison only)"""
-    sc = Scenario(rng, nn, mounts)
+    sc = Scenario(rng, nn, mounts, prefix_names=(mounts > 1 and not fine_gossip and rng.random() < 0.4))
     cids = {}
     opaque = False
     for _ in range(rng.choice([6, 10, 16])):
@@ -527,6 +544,8 @@ def gen_lifecycle(rng, nn, mounts=1, takeover=0.25, fine_gossip=False):
             will = rng.choice([None, ("w/t", rng.choice(["6465", "00"]), rng.choice([0, 1]), rng.choice([0, 0, 1]))])
             mount = rng.choice(sc.mounts)
             cid = None
+            if rng.random() < 0.12 and not any(v["cid"] == "0x" and v["mount"] == mount for v in sc.clients.values()):
+                cid = "0x"      # the empty client identifier is an identifier like any other
             if alive and rng.random() < takeover:
                 # re-use a client id that is in use (in the same or another mount point)
                 victim = rng.choice(alive)
@@ -540,7 +559,7 @@ def gen_lifecycle(rng, nn, mounts=1, takeover=0.25, fine_gossip=False):
                 spec = "-" if not will else f"{will[0]}:{will[1]}:{will[2]}:{will[3]}"
                 node = rng.randrange(nn)
                 sc.clients[name] = {"node": node, "mount": mount, "cid": cid or f"id{sc.k}", "will": will, "subs": {}, "alive": True}
-                sc.ops.append(f"connect {name} {node} {cid or f'id{sc.k}'} {mount} 60 {spec}")
+                sc.ops.append(f"connect {name} {node} {'~' if cid == '0x' else (cid or f'id{sc.k}')} {mount} 60 {spec}")
             else:
                 sc.connect(mount=mount, will=will, cid=cid)
             for d in displaced:
@@ -1270,8 +1289,269 @@ def corpus_displacer_gone_before_ping(rng):
     return sc
 
 
+def gen_answer_lost(rng):
+    """connections on which the broker's writes fail (a peer that is gone but not yet noticed): a packet whose answer the
+    packet processor writes itself (SUBACK, UNSUBACK, PUBREC, PINGRESP) ends the session as a lost connection — will
+    published, subscriptions and records gone on every node; a QoS 0/1 PUBLISH is routed as usual and the session stays"""
+    nn = rng.choice([1, 2, 2])
+    sc = Scenario(rng, nn, 1)
+    w = sc.connect(node=rng.randrange(nn))
+    sc.sub(w, [("w/#", rng.choice([0, 1]))])
+    obs = sc.connect(node=rng.randrange(nn))
+    sc.sub(obs, [("t/#", rng.choice([0, 1, 2]))])
+    victims = []
+    for k in range(rng.choice([2, 3])):
+        v = sc.connect(node=rng.randrange(nn), will=rng.choice([None, (f"w/{k}", "7a", rng.choice([0, 1]), 0), (f"w/{k}", "7b", 0, 0)]))
+        sc.sub(v, [(rng.choice(["t/a", "t/#", "u"]), rng.choice([0, 1]))])
+        victims.append(v)
+    for v in victims:
+        sc.ops.append(f"mute {v} 1")
+        # first something that does not end the session: the message is routed, the acknowledgement is lost
+        if rng.random() < 0.6:
+            q = rng.choice([0, 1])
+            sc.mid += 1
+            deliv = sc.deliveries(sc.clients[v]["mount"], "t/a", "0c", 0)
+            deliv.pop(v, None)        # what is written to the muted connection is not seen
+            sc.emit(f"pub {v} t/a 0c {q} 0 0 {sc.mid}", {k_: list(x) for k_, x in deliv.items()}, "delivery")
+            sc.ack_receivers(deliv)
+        kind = rng.choice(["sub", "unsub", "ping", "pub2"])
+        exp, deliv = {}, {}
+        sc._end_effects(v, "lost", exp, deliv)
+        sc.mid += 1
+        if kind == "sub":
+            op = f"sub {v} {sc.mid} q/x:1,q/y:0"
+        elif kind == "unsub":
+            op = f"unsub {v} {sc.mid} " + rng.choice(list(sc.clients[v]["subs"]) + ["nosuch"])
+        elif kind == "ping":
+            op = f"ping {v}"
+        else:
+            op = f"pub {v} t/a 0d 2 0 0 {sc.mid}"
+        sc.emit(op, exp, "session-end-on-lost-answer")
+        sc.ack_receivers(deliv)
+        sc.gossip()
+        if rng.random() < 0.5:
+            sc.check_state()
+    sc.emit("expire 0", {}, "unexpected-packets")
+    p = sc.connect(node=rng.randrange(nn))
+    sc.pub(p, "t/a", "0e", 1)
+    sc.pub(p, "q/x", "0f", 1)
+    sc.check_state()
+    return sc
+
+
+def corpus_alternating_hosts(rng):
+    """three sessions subscribe to the same filter on nodes 0, 1, 0 in that order: a matching publish is stored once on
+    each hosting node (one copy per subscriber, not per appearance of the node in the recipient list)"""
+    sc = Scenario(rng, 2, 1)
+    p = sc.connect(node=rng.choice([0, 1]))
+    subs = []
+    for n in (0, 1, 0, 1, 0):
+        s_ = sc.connect(node=n)
+        sc.sub(s_, [("t/x", rng.choice([0, 1]))])
+        subs.append(s_)
+    for pl in ("0a", "0b"):
+        sc.pub(p, "t/x", pl, 1)
+    sc.ops.append("log 0")
+    sc.ops.append("log 1")
+    sc.check_state()
+    return sc
+
+
+def corpus_retransmit_then_next(rng):
+    """a QoS 1 delivery is retransmitted (its identifier stays in use) and the next message to the same session still
+    arrives, under another identifier; everything is returned once both are acknowledged"""
+    sc = Scenario(rng, 1, 1)
+    p = sc.connect(node=0)
+    s_ = sc.connect(node=0)
+    sc.sub(s_, [("t", 1)])
+    sc.mid += 1
+    sc.emit(f"pub {p} t 01 1 0 0 {sc.mid}", {p: [f"puback({sc.mid})"], s_: [pubstr("t", "01", 1, 0, 0)]}, "delivery")
+    sc.emit("expire 0", {s_: [pubstr("t", "01", 1, 0, 0)]}, "retransmission")
+    sc.mid += 1
+    sc.emit(f"pub {p} t 02 1 0 0 {sc.mid}", {p: [f"puback({sc.mid})"], s_: [pubstr("t", "02", 1, 0, 0)]}, "acked-publish-not-delivered")
+    sc.emit("expire 0", {s_: [pubstr("t", "01", 1, 0, 0), pubstr("t", "02", 1, 0, 0)]}, "retransmission")
+    sc.ops.append("pool 0")
+    sc.emit(f"ack {s_} puback #1", {}, "ack")
+    sc.emit(f"ack {s_} puback #2", {}, "ack")
+    sc.emit("expire 0", {}, "retransmission-after-completion")
+    sc.ops.append("pool 0")
+    return sc
+
+
+def corpus_fanout_unacked_retransmit(rng):
+    """one message fans out to a QoS 1, a QoS 2 and a QoS 0 subscriber; nobody answers; each retransmission repeats the
+    recipient's own packet (its topic, QoS and identifier), and each exchange completes on its own"""
+    sc = Scenario(rng, 1, 1)
+    p = sc.connect(node=0)
+    s1, s2, s0 = sc.connect(node=0), sc.connect(node=0), sc.connect(node=0)
+    sc.sub(s1, [("t/#", 1)])
+    sc.sub(s2, [("t/+", 2)])
+    sc.sub(s0, [("#", 0)])
+    sc.mid += 1
+    sc.emit(f"pub {p} t/a 01 1 0 0 {sc.mid}", {p: [f"puback({sc.mid})"], s1: [pubstr("t/a", "01", 1, 0, 0)], s2: [pubstr("t/a", "01", 2, 0, 0)],
+                                                s0: [pubstr("t/a", "01", 0, 0, 0)]}, "delivery")
+    sc.emit("expire 0", {s1: [pubstr("t/a", "01", 1, 0, 0)], s2: [pubstr("t/a", "01", 2, 0, 0)]}, "retransmission")
+    sc.emit(f"ack {s1} puback #1", {}, "ack")
+    sc.emit("expire 0", {s2: [pubstr("t/a", "01", 2, 0, 0)]}, "retransmission")
+    sc.emit(f"ack {s2} pubrec #1", {s2: ["pubrel"]}, "qos2-phase")
+    sc.emit(f"ack {s2} pubcomp #1", {}, "ack")
+    sc.emit("expire 0", {}, "retransmission-after-completion")
+    sc.ops.append("pool 0")
+    sc.pub(p, "t/b", "02", 1)
+    return sc
+
+
+def corpus_topic_starts_with_mount_name(rng):
+    """a topic whose first level is spelled like the tenant's mount point: deliveries and every retransmission carry the
+    topic exactly as published"""
+    sc = Scenario(rng, 1, 2)
+    m = sc.mounts[0]
+    p = sc.connect(node=0, mount=m)
+    s1, s2 = sc.connect(node=0, mount=m), sc.connect(node=0, mount=m)
+    other = sc.connect(node=0, mount=sc.mounts[1])
+    sc.sub(s1, [("#", 1)])
+    sc.sub(s2, [(f"{m}/#", 2)])
+    sc.sub(other, [("#", 0)])
+    t = f"{m}/{m}/x"
+    sc.mid += 1
+    sc.emit(f"pub {p} {t} 01 1 0 0 {sc.mid}", {p: [f"puback({sc.mid})"], s1: [pubstr(t, "01", 1, 0, 0)], s2: [pubstr(t, "01", 2, 0, 0)]}, "delivery")
+    for _ in range(2):
+        sc.emit("expire 0", {s1: [pubstr(t, "01", 1, 0, 0)], s2: [pubstr(t, "01", 2, 0, 0)]}, "retransmission")
+    sc.ops.append(f"ackall {s1}")
+    sc.ops.append(f"ackall {s2}")
+    sc.ops.append("pool 0")
+    return sc
+
+
+def corpus_concatenation_collision(rng):
+    """two tenants whose mount point + client identifier spell the same string (t1 + 1x, t11 + x): they are different
+    clients; neither displaces the other"""
+    sc = Scenario(rng, rng.choice([1, 2]), 1)
+    a = sc.connect(node=0, mount="t1", cid="1x", will=("w", "61", 0, 0))
+    sc.sub(a, [("a/#", 1)])
+    b = sc.connect(node=sc.nn - 1, mount="t11", cid="x")
+    sc.sub(b, [("a/#", 1)])
+    sc.emit(f"ping {a}", {a: ["pingresp"]}, "other-tenant-disturbed")
+    sc.emit(f"ping {b}", {b: ["pingresp"]}, "other-tenant-disturbed")
+    sc.check_state()
+    a2 = sc.connect(node=0, mount="t1", cid="1x")
+    sc.clients[a]["alive"] = False
+    sc.emit(f"ping {a}", {a: ["CLOSED"]}, "displaced-session-still-served")
+    sc.emit(f"ping {b}", {b: ["pingresp"]}, "other-tenant-disturbed")
+    sc.gossip()
+    sc.check_state()
+    return sc
+
+
+def corpus_empty_client_id_takeover(rng):
+    """the empty client identifier is an identifier like any other: a second CONNECT with it (same tenant) displaces the first"""
+    sc = Scenario(rng, rng.choice([1, 2]), 1)
+    a = sc.connect(node=0, cid="~")
+    sc.clients[a]["cid"] = "0x"      # how an empty string is shown
+    sc.sub(a, [("a/#", 1)])
+    b = sc.connect(node=sc.nn - 1, cid="~")
+    sc.clients[b]["cid"] = "0x"
+    sc.clients[a]["alive"] = False
+    sc.emit(f"ping {a}", {a: ["CLOSED"]}, "displaced-session-still-served")
+    sc.emit(f"ping {b}", {b: ["pingresp"]}, "healthy-session-ended")
+    sc.gossip()
+    sc.check_state()
+    return sc
+
+
+def corpus_suback_unwritable(rng):
+    """the connection breaks while the broker answers a SUBSCRIBE (the SUBACK cannot be written): the session ends as by
+    a lost connection and none of its subscriptions stays behind, on any node"""
+    sc = Scenario(rng, 2, 1)
+    w = sc.connect(node=1)
+    sc.sub(w, [("w/#", 0)])
+    p = sc.connect(node=1)
+    v = sc.connect(node=0, will=("w/v", "76", 0, 0))
+    sc.sub(v, [("keep", 0)])
+    sc.ops.append(f"mute {v} 1")
+    sc.mid += 1
+    sc.clients[v]["alive"] = False
+    sc.emit(f"sub {v} {sc.mid} x/y:1,z:0", {v: ["CLOSED"], w: [pubstr("w/v", "76", 0, 0, 0)]}, "session-end")
+    sc.gossip()
+    sc.check_state()
+    sc.pub(p, "x/y", "01", 1)
+    sc.ops.append("log 0")
+    sc.exp[len(sc.ops) - 1] = ("[]", "message-stored-for-vanished-subscriber")
+    return sc
+
+
+def corpus_connack_unwritable(rng):
+    """the connection breaks while the broker answers CONNECT (the CONNACK cannot be written): the session that was set
+    up ends at once as by a lost connection — its will is published, nothing of it stays listed"""
+    from checks import wirelib
+    sc = Scenario(rng, 2, 1)
+    m = sc.mounts[0]
+    w = sc.connect(node=1)
+    sc.sub(w, [("w/#", 1)])
+    h = sc.open(node=0)
+    sc.ops.append(f"mute {h} 1")
+    del sc.handshakes[h]
+    pkt = wirelib.connect("idH", user=m, will=("w/h", b"h", 0, 0))
+    sc.emit(f"raw {h} {pkt.hex()}", {h: ["CLOSED"], w: [pubstr("w/h", "68", 1, 0, 0)]}, "will-of-half-open-session")
+    sc.ops.append(f"ackall {w}")
+    sc.gossip()
+    sc.check_state()
+    return sc
+
+
+def corpus_clean_end_overtakes_creation_then_node_fails(rng):
+    """a session with a will connects and DISCONNECTs on node 1; node 0 hears of the end before the beginning; then node 1
+    fails: the will of the cleanly ended session is not published"""
+    sc = Scenario(rng, 2, 1)
+    w = sc.connect(node=0)
+    sc.sub(w, [("#", rng.choice([0, 1]))])
+    sc.ops.append("connect c9 1 idA mp 60 w/t:6279:0:0")
+    sc.ops.append("disconnect c9")
+    # pending 1->0: [S-create, S-delete]
+    sc.ops.append("bcone 1 0 1")
+    sc.ops.append("bc 1 0")
+    sc.ops.append("state 0")
+    sc.exp[len(sc.ops) - 1] = (f"[S,S{w},{sc.clients[w]['cid']},mp,1,-] [U,S{w},mp/#,1,{sc.clients[w]['subs']['#']}] [] [S{w}]", "ended-session-still-listed")
+    sc.emit("nodefail 1", {}, "will-after-clean-disconnect")
+    sc.ops.append("idle 3200")
+    sc.ops.append("state 0")
+    sc.exp[len(sc.ops) - 1] = (f"[S,S{w},{sc.clients[w]['cid']},mp,1,-] [U,S{w},mp/#,1,{sc.clients[w]['subs']['#']}] [] [S{w}]", "traces-of-failed-node")
+    return sc
+
+
+def corpus_unsubscribe_overtakes_subscribe(rng):
+    """node 0 hears of an UNSUBSCRIBE on node 1 before it hears of the SUBSCRIBE: the subscription must not come to life
+    there — a matching publish on node 0 is not routed to node 1"""
+    sc = Scenario(rng, 2, 1)
+    p = sc.connect(node=0)
+    sc.ops.append("connect c9 1 idA mp 60 -")
+    sc.ops.append("bc 1 0")
+    sc.ops.append("sub c9 5 a/#:1")
+    sc.ops.append("unsub c9 6 a/#")
+    # pending 1->0: [U-create a/#, U-delete a/#]
+    sc.ops.append("bcone 1 0 1")
+    sc.ops.append("bc 1 0")
+    sc.ops.append("state 0")
+    sc.exp[len(sc.ops) - 1] = ("[" + " ".join(sorted([f"S,Sc9,idA,mp,2,-", f"S,S{p},{sc.clients[p]['cid']},mp,1,-"])) + f"] [] [] [S{p}]", "removed-subscription-listed")
+    sc.mid += 1
+    sc.emit(f"pub {p} a/b 01 1 0 0 {sc.mid}", {p: [f"puback({sc.mid})"]}, "delivery")
+    sc.ops.append("log 1")
+    sc.exp[len(sc.ops) - 1] = ("[]", "message-routed-to-node-without-subscriber")
+    sc.ops.append("log 0")
+    sc.exp[len(sc.ops) - 1] = ("[]", "message-routed-to-node-without-subscriber")
+    return sc
+
+
 def corpus(rng, names):
     table = {"displacer-gone-before-ping": corpus_displacer_gone_before_ping,
+             "alternating-hosts": corpus_alternating_hosts, "retransmit-then-next": corpus_retransmit_then_next,
+             "fanout-unacked-retransmit": corpus_fanout_unacked_retransmit,
+             "topic-starts-with-mount-name": corpus_topic_starts_with_mount_name,
+             "concatenation-collision": corpus_concatenation_collision,
+             "empty-client-id-takeover": corpus_empty_client_id_takeover,
+             "suback-unwritable": corpus_suback_unwritable, "connack-unwritable": corpus_connack_unwritable,
+             "clean-end-overtakes-creation-then-node-fails": corpus_clean_end_overtakes_creation_then_node_fails,
+             "unsubscribe-overtakes-subscribe": corpus_unsubscribe_overtakes_subscribe,
              "broken-recipient": corpus_broken_recipient_does_not_stop_fanout,
              "late-pubrel-after-timeout": corpus_late_pubrel_after_timeout,
              "takeover-with-unacked-delivery": corpus_takeover_with_unacked_delivery,
